@@ -575,7 +575,71 @@ def object_routes(ctx):
     modgen.unload(m)
 
 
+DEFHIST_SRC = modgen.DS_HEADER + '''
+PT_CUT = 10
+LABEL = "a"
+def good(e): return e.pt > PT_CUT
+def labelled(e): return (e.tag == LABEL, e.pt * PT_CUT)
+def above(cut, name):
+    def sel(e): return e.pt > cut and e.tag != name
+    return sel
+def scaled_by(k):
+    def sc(e, *, f=k): return e.pt * f + k
+    return sc
+def sq(x): return x * x + PT_CUT
+def pt2(e): return sq(e.pt) + sq(e.pt + 1)
+class Cfg:
+    THR = 5
+def over_thr(e): return e.pt > Cfg.THR
+keep_lambda = lambda e: e.pt > PT_CUT
+def q_where(ds, fn): return ds.Where(fn)
+def q_select(ds, fn): return ds.Select(fn)
+def q_good(ds): return ds.Where(good)
+def q_lambda_again(ds): return ds.Select(lambda e: (e.pt > PT_CUT, sq(e.pt), Cfg.THR))
+'''
+
+
+def def_history(ctx, rounds=8):
+    """one-line functions passed by NAME - module-level ones reading globals / class constants, closures of one factory (same text,
+    other cell values), functions with defaults taken from the factory - passed again and again while the values they read change:
+    every query holds the values of its own moment"""
+    m = modgen.load(DEFHIST_SRC, "c04dh")
+    ds = m.DS()
+    rnd = random.Random(ctx.seed * 31 + ctx.shard)
+    for rd in range(rounds):
+        m.PT_CUT = rnd.choice([10, 30, 2.5, -1, True, 10**12])
+        m.LABEL = rnd.choice(["a", "b'c", "d\\e", ""])
+        m.Cfg.THR = rnd.choice([5, 7.5, 0])
+        cut, name, k = rnd.choice([10, 20, 0.5]), rnd.choice(["x", "y'z"]), rnd.choice([2, 3.5, -4])
+        for what, q, fn in [("module-level def reading a global", m.q_where, m.good), ("the same def through a wrapper that names it", lambda d, f: m.q_good(d), m.good),
+                            ("def reading two globals", m.q_select, m.labelled), ("closure of a factory", m.q_where, m.above(cut, name)),
+                            ("closure with a default from the factory", m.q_select, m.scaled_by(k)), ("def calling a helper that reads a global", m.q_select, m.pt2),
+                            ("def reading a class constant", m.q_where, m.over_thr), ("assigned lambda reading a global", m.q_where, m.keep_lambda),
+                            ("lambda on one source line executed again", lambda d, f: m.q_lambda_again(d), (lambda e: (e.pt > m.PT_CUT, m.sq(e.pt), m.Cfg.THR)))]:
+            ctx.case(f"def-history:{what}:{rd}", True)
+            ctx.count("def-history-queries")
+            expected = probe.behaviour(fn)
+            try:
+                s_ = q(ds, fn)
+            except Exception as e:
+                if isinstance(e, ValueError) and what.startswith("assigned lambda"):
+                    ctx.count("def-history:refused (a lambda kept in a variable need not be recoverable: C03 allows the refusal)")
+                    continue
+                ctx.violation(f"def-history:exc:{type(e).__name__}", f"{what} (round {rd}): {type(e).__name__}: {str(e)[:200]}", {"def_history": True})
+                continue
+            lam = s_.query_ast.args[1]
+            try:
+                got = probe.behaviour(probe.compile_lambda(lam, {}))
+            except Exception as e:
+                got = frozenset([((), f"<compile/eval failed: {type(e).__name__}: {e}>")])
+            if got != expected:
+                ctx.violation("def-history:values-of-another-moment", f"{what}, round {rd} (PT_CUT={m.PT_CUT!r}, LABEL={m.LABEL!r}, THR={m.Cfg.THR!r}, cut={cut!r}, k={k!r}): python gives {probe.describe(expected, 2)}, recorded {astx.unparse(lam)[:200]} gives {probe.describe(got, 2)}", {"def_history": True})
+    modgen.unload(m)
+
+
 def shard_main(ctx):
+    if ctx.shard in (0, 1, 6):
+        def_history(ctx)
     if ctx.shard == 0:
         comprehension_scope(ctx)
         subclass_scalars(ctx)
@@ -607,6 +671,10 @@ def shard_main(ctx):
 
 
 def replay(ctx, witness):
+    if witness.get("def_history"):
+        def_history(ctx)
+        modgen.cleanup()
+        return
     if witness.get("objects"):
         object_routes(ctx)
         return
